@@ -90,24 +90,58 @@ struct Scn {
     abort: u8,
     seed: u64,
     nonce: u64,
+    /// H2 client: open stream 0 first and the others once the h2c backend has read sozu's connection preface
+    stagger: bool,
+    /// HTTP/1.1 client: all requests of the sequence in one write
+    pipeline: bool,
+    /// h2c backend: hold its SETTINGS back for this long after reading the preface (legal, RFC 9113 sets no deadline)
+    bset_delay_ms: u64,
 }
 
 impl Scn {
     fn req_len(&self, i: usize) -> usize {
-        if self.req_fr == "none" { 0 } else { self.req_size + i * self.step }
+        if self.req_fr == "none" || self.req_fr == "head" { 0 } else { self.req_size + i * self.step }
     }
+    /// body bytes the client must receive (HEAD, 204 and 304 answers carry none)
     fn resp_len(&self, i: usize) -> usize {
+        if self.bodyless() { 0 } else { self.declared_resp_len(i) }
+    }
+    /// the length a HEAD answer declares without sending it
+    fn declared_resp_len(&self, i: usize) -> usize {
         self.resp_size + i * self.step
+    }
+    fn bodyless(&self) -> bool {
+        matches!(self.resp_fr.as_str(), "head" | "s204" | "s304")
+    }
+    fn expected_status(&self) -> i32 {
+        match self.resp_fr.as_str() {
+            "s204" => 204,
+            "s304" => 304,
+            _ => 200,
+        }
+    }
+    fn req_trailers(&self) -> bool {
+        self.req_fr == "chunkedtr" || self.req_fr == "datatr"
+    }
+    fn resp_trailers(&self) -> bool {
+        self.resp_fr == "chunkedtr" || self.resp_fr == "datatr"
+    }
+    fn method(&self) -> &'static str {
+        match self.req_fr.as_str() {
+            "head" => "HEAD",
+            "none" => "GET",
+            _ => "POST",
+        }
     }
     fn path(&self, i: usize) -> String {
         format!("/{}/{}/{}", if self.back_h2 { "h2" } else { "h1" }, self.nonce, i)
     }
     fn shape(&self) -> String {
         format!(
-            "pair={}->{} n={} req={}:{} resp={}:{} step={} chunk={} pad={} cfrag={} cpause={} bfrag={} bpause={} sockbuf={} win={} abort={} bufsz={}",
+            "pair={}->{} n={} req={}:{} resp={}:{} step={} chunk={} pad={} cfrag={} cpause={} bfrag={} bpause={} sockbuf={} win={} abort={} bufsz={} stagger={} bset_delay_ms={}",
             if self.front_h2 { "h2" } else { "h1" }, if self.back_h2 { "h2" } else { "h1" }, self.n, self.req_fr, self.req_size,
             self.resp_fr, self.resp_size, self.step, self.chunk, self.pad, self.cfrag, self.cpause, self.bfrag, self.bpause,
-            self.sockbuf, self.win, self.abort, self.bufsz
+            self.sockbuf, self.win, self.abort, self.bufsz, if self.pipeline { 2 } else { self.stagger as u8 }, self.bset_delay_ms
         )
     }
 }
@@ -167,6 +201,8 @@ struct Shared {
     backend_peer_ports: Mutex<Vec<u16>>,
     /// (bytes unread by sozu on its client socket, on its backend sockets) when the scenario was given up
     unread: Mutex<(usize, usize)>,
+    /// an h2c backend connection of this scenario has read sozu's connection preface
+    backend_prefaces: std::sync::atomic::AtomicUsize,
 }
 
 /// bytes the kernel holds for the socket whose (local, remote) ports are given and that its owner has not read
@@ -362,7 +398,10 @@ impl Conn {
                         break;
                     }
                     Err(e) if e.kind() == std::io::ErrorKind::Interrupted => {}
-                    Err(_) => {
+                    Err(e) => {
+                        if trace() {
+                            eprintln!("conn write error: {e:?}");
+                        }
                         self.err = true;
                         return;
                     }
@@ -383,7 +422,10 @@ impl Conn {
                 Some(c) => match c.read_tls(&mut &self.tcp) {
                     Ok(0) => self.eof = true,
                     Ok(_) => {
-                        if c.process_new_packets().is_err() {
+                        if let Err(e) = c.process_new_packets() {
+                            if trace() {
+                                eprintln!("tls error: {e:?}");
+                            }
                             self.err = true;
                             return;
                         }
@@ -426,6 +468,18 @@ impl Conn {
 }
 
 // ------------------------------------------------------------------ HTTP/1 codec (scripted side)
+
+/// literal header field without indexing, new name (HPACK 6.2.2): a trailer block needs no encoder state
+const H2_TRAILERS: &[u8] = b"\x00\x09x-trailer\x01t";
+
+fn chunked_encode_tr(body: &[u8], unit: usize, trailers: bool) -> Vec<u8> {
+    let mut v = chunked_encode(body, unit);
+    if trailers {
+        v.truncate(v.len() - 2);
+        v.extend_from_slice(b"X-Trailer: t\r\n\r\n");
+    }
+    v
+}
 
 fn chunked_encode(body: &[u8], unit: usize) -> Vec<u8> {
     let cyc = sizes_cycle(unit);
@@ -648,7 +702,9 @@ impl Credit {
             conn_pending: 0,
             conn_batch: Credit::conn_batch_for(expected_total),
             stream_pending: HashMap::new(),
-            stream_batch: ((win.min(65535) / 2) as usize).max(1),
+            // half the announced stream window (a huge window needs no stream-level update at all: updates that
+            // arrive after sozu has finished the stream are counted as glitches by its flood guard)
+            stream_batch: ((win / 2) as usize).max(1),
         }
     }
     /// connection-level credit comes back every 32767 bytes (half the default window); for totals that would
@@ -696,11 +752,13 @@ struct H2Tx {
     k: usize,
     pad: usize,
     rr: usize,
+    /// streams whose body is followed by a trailer HEADERS frame carrying END_STREAM
+    trailers: Vec<u32>,
 }
 
 impl H2Tx {
     fn new(unit: usize, pad: usize) -> H2Tx {
-        H2Tx { conn_win: 65535, init_win: 65535, max_frame: 16384, streams: vec![], cyc: sizes_cycle(unit), k: 0, pad, rr: 0 }
+        H2Tx { conn_win: 65535, init_win: 65535, max_frame: 16384, streams: vec![], cyc: sizes_cycle(unit), k: 0, pad, rr: 0, trailers: vec![] }
     }
     fn open(&mut self, sid: u32, body: Vec<u8>, idx: usize, abort_at: Option<usize>) {
         self.streams.push((sid, body, 0, self.init_win, idx, abort_at));
@@ -744,8 +802,11 @@ impl H2Tx {
                 }
             }
             if left == 0 {
-                // zero-length body: END_STREAM on an empty DATA frame
                 self.streams.remove(j);
+                if self.trailers.contains(&sid) {
+                    return Some((frame(T_HEADERS, 0x5, sid, H2_TRAILERS), Some(idx)));
+                }
+                // zero-length body: END_STREAM on an empty DATA frame
                 return Some((data_frame(sid, &[], 0, true), Some(idx)));
             }
             let overhead = if self.pad > 0 { 1 + self.pad.min(255) } else { 0 };
@@ -758,8 +819,12 @@ impl H2Tx {
                 len = len.min(a - pos).max(1).min(left);
             }
             self.k += 1;
+            let with_trailers = self.trailers.contains(&sid);
             let end = len == left && abort_at.is_none();
-            let f = data_frame(sid, &body[pos..pos + len], self.pad, end);
+            let mut f = data_frame(sid, &body[pos..pos + len], self.pad, end && !with_trailers);
+            if end && with_trailers {
+                f.extend(frame(T_HEADERS, 0x5, sid, H2_TRAILERS));
+            }
             let fc = (len + overhead) as i64;
             self.conn_win -= fc;
             self.streams[j].2 += len;
@@ -866,12 +931,19 @@ fn h1_backend_conn(tcp: TcpStream, cur: Current) {
         }
         // ---- response
         let body = pattern(scn.seed, idx, 1, scn.resp_len(idx));
-        let abort_at = if scn.abort == 1 { Some(body.len() / 2) } else { None };
+        let abort_at = if scn.abort == 1 && body.len() >= 2 { Some(body.len() / 2) } else { None };
         let mut msg = vec![];
         match scn.resp_fr.as_str() {
-            "chunked" => {
-                msg.extend_from_slice(b"HTTP/1.1 200 OK\r\nTransfer-Encoding: chunked\r\n\r\n");
-                let enc = chunked_encode(&body, scn.chunk);
+            "head" => msg.extend_from_slice(format!("HTTP/1.1 200 OK\r\nContent-Length: {}\r\n\r\n", scn.declared_resp_len(idx)).as_bytes()),
+            "s204" => msg.extend_from_slice(b"HTTP/1.1 204 No Content\r\n\r\n"),
+            "s304" => msg.extend_from_slice(b"HTTP/1.1 304 Not Modified\r\nETag: \"c01\"\r\n\r\n"),
+            "chunked" | "chunkedtr" => {
+                if scn.resp_trailers() {
+                    msg.extend_from_slice(b"HTTP/1.1 200 OK\r\nTransfer-Encoding: chunked\r\nTrailer: X-Trailer\r\n\r\n");
+                } else {
+                    msg.extend_from_slice(b"HTTP/1.1 200 OK\r\nTransfer-Encoding: chunked\r\n\r\n");
+                }
+                let enc = chunked_encode_tr(&body, scn.chunk, scn.resp_trailers());
                 match abort_at {
                     Some(_) => msg.extend_from_slice(&enc[..enc.len() / 2]),
                     None => msg.extend_from_slice(&enc),
@@ -927,6 +999,14 @@ fn h2_backend_conn(tcp: TcpStream, cur: Current, win: u32) {
         return;
     }
     c.inb.drain(..24);
+    let preface_at = Instant::now();
+    let bset_delay = match cur.lock().unwrap().as_ref() {
+        Some(sh) => {
+            sh.backend_prefaces.fetch_add(1, std::sync::atomic::Ordering::SeqCst);
+            sh.scn.bset_delay_ms
+        }
+        None => 0,
+    };
     let mut dec = loona_hpack::Decoder::new();
     let mut tx: Option<H2Tx> = None;
     let mut early_settings: Vec<Vec<u8>> = vec![];
@@ -939,6 +1019,14 @@ fn h2_backend_conn(tcp: TcpStream, cur: Current, win: u32) {
     let mut idle = Instant::now();
     let mut credit = Credit::new(win, 0);
     loop {
+        if !sent_settings && preface_at.elapsed() < Duration::from_millis(bset_delay) {
+            // a server that is slow to send its connection preface; nothing is read meanwhile
+            c.pump(false);
+            if c.err {
+                return;
+            }
+            continue;
+        }
         if !sent_settings {
             // the window we announce is the scenario's: wait for the first request to know it,
             // but never hold the connection preface back: announce the default first
@@ -983,6 +1071,16 @@ fn h2_backend_conn(tcp: TcpStream, cur: Current, win: u32) {
                         let Ok(hs) = dec.decode(&block) else { return };
                         let path = hs.iter().find(|(k, _)| k == b":path").map(|(_, v)| String::from_utf8_lossy(v).to_string()).unwrap_or_default();
                         let end_stream = flags & 1 != 0;
+                        if let Some(e) = rx.get(&sid) {
+                            // a second header block on an open request stream: trailers
+                            let idx = e.0;
+                            if let (true, Some(sh)) = (end_stream, sh_opt.clone()) {
+                                sh.with(idx, |x| x.req_end = End::Clean);
+                                respond_h2(&mut c, tx.as_mut().unwrap(), &sh, sid, idx);
+                                rx.remove(&sid);
+                            }
+                            continue;
+                        }
                         match lookup(&cur, &path) {
                             Some((sh, idx)) => {
                                 if tx.is_none() {
@@ -1136,12 +1234,24 @@ fn respond_h2(c: &mut Conn, tx: &mut H2Tx, sh: &Arc<Shared>, sid: u32, idx: usiz
     let body = pattern(scn.seed, idx, 1, scn.resp_len(idx));
     let mut enc = loona_hpack::Encoder::new();
     let mut block = vec![];
-    let _ = enc.encode_header_into((&b":status"[..], &b"200"[..]), &mut block);
+    let _ = enc.encode_header_into((&b":status"[..], scn.expected_status().to_string().as_bytes()), &mut block);
     if scn.resp_fr == "datacl" {
         let _ = enc.encode_header_into((&b"content-length"[..], body.len().to_string().as_bytes()), &mut block);
     }
+    if scn.bodyless() {
+        if scn.resp_fr == "head" {
+            let _ = enc.encode_header_into((&b"content-length"[..], scn.declared_resp_len(idx).to_string().as_bytes()), &mut block);
+        }
+        // no body may follow: END_STREAM on the HEADERS frame
+        c.queue(&frame(T_HEADERS, 0x5, sid, &block));
+        sh.with(idx, |x| x.resp_sender_blocked_or_done = true);
+        return;
+    }
+    if scn.resp_trailers() {
+        tx.trailers.push(sid);
+    }
     c.queue(&frame(T_HEADERS, 0x4, sid, &block));
-    let abort_at = if scn.abort == 1 { Some(body.len() / 2) } else { None };
+    let abort_at = if scn.abort == 1 && body.len() >= 2 { Some(body.len() / 2) } else { None };
     tx.open(sid, body, idx, abort_at);
 }
 
@@ -1179,10 +1289,11 @@ fn h1_client(front: SocketAddr, sh: Arc<Shared>) {
         let body = pattern(scn.seed, i, 0, scn.req_len(i));
         let mut msg = vec![];
         match scn.req_fr.as_str() {
-            "none" => msg.extend_from_slice(format!("GET {} HTTP/1.1\r\nHost: localhost\r\n\r\n", scn.path(i)).as_bytes()),
-            "chunked" => {
-                msg.extend_from_slice(format!("POST {} HTTP/1.1\r\nHost: localhost\r\nTransfer-Encoding: chunked\r\n\r\n", scn.path(i)).as_bytes());
-                msg.extend_from_slice(&chunked_encode(&body, scn.chunk));
+            "none" | "head" => msg.extend_from_slice(format!("{} {} HTTP/1.1\r\nHost: localhost\r\n\r\n", scn.method(), scn.path(i)).as_bytes()),
+            "chunked" | "chunkedtr" => {
+                let tr = if scn.req_trailers() { "Trailer: X-Trailer\r\n" } else { "" };
+                msg.extend_from_slice(format!("POST {} HTTP/1.1\r\nHost: localhost\r\nTransfer-Encoding: chunked\r\n{tr}\r\n", scn.path(i)).as_bytes());
+                msg.extend_from_slice(&chunked_encode_tr(&body, scn.chunk, scn.req_trailers()));
             }
             _ => {
                 msg.extend_from_slice(format!("POST {} HTTP/1.1\r\nHost: localhost\r\nContent-Length: {}\r\n\r\n", scn.path(i), body.len()).as_bytes());
@@ -1193,7 +1304,28 @@ fn h1_client(front: SocketAddr, sh: Arc<Shared>) {
         if abort {
             msg.truncate(msg.len() - body.len() / 2 - if scn.req_fr == "chunked" { 5 } else { 0 });
         }
-        c.queue(&msg);
+        // pipelining (stagger = 2 on an HTTP/1.1 client): every request of the sequence goes out in one write
+        if scn.pipeline {
+            if i == 0 {
+                c.queue(&msg);
+                for j in 1..scn.n {
+                    let b = pattern(scn.seed, j, 0, scn.req_len(j));
+                    match scn.req_fr.as_str() {
+                        "none" | "head" => c.queue(format!("{} {} HTTP/1.1\r\nHost: localhost\r\n\r\n", scn.method(), scn.path(j)).as_bytes()),
+                        "chunked" | "chunkedtr" => {
+                            c.queue(format!("POST {} HTTP/1.1\r\nHost: localhost\r\nTransfer-Encoding: chunked\r\n\r\n", scn.path(j)).as_bytes());
+                            c.queue(&chunked_encode_tr(&b, scn.chunk, scn.req_trailers()));
+                        }
+                        _ => {
+                            c.queue(format!("POST {} HTTP/1.1\r\nHost: localhost\r\nContent-Length: {}\r\n\r\n", scn.path(j), b.len()).as_bytes());
+                            c.queue(&b);
+                        }
+                    }
+                }
+            }
+        } else {
+            c.queue(&msg);
+        }
         c.take_blocked();
         // ---- write the request (reading in between: the answer may start early), then read the response
         let mut head: Option<String> = None;
@@ -1214,8 +1346,13 @@ fn h1_client(front: SocketAddr, sh: Arc<Shared>) {
             if head.is_none() {
                 if let Some(h) = take_head(&mut c.inb) {
                     let status = h.split(' ').nth(1).and_then(|s| s.parse::<i32>().ok()).unwrap_or(-1);
+                    if (100..200).contains(&status) {
+                        // interim response: the final one follows
+                        continue;
+                    }
                     sh.with(i, |x| x.status = status);
-                    rd = body_reader_of(&h, true);
+                    // no body may follow a HEAD answer, a 204 or a 304 (RFC 9110 6.4.1)
+                    rd = if scn.req_fr == "head" || status == 204 || status == 304 { BodyRd::Len(0) } else { body_reader_of(&h, true) };
                     head = Some(h);
                 }
             }
@@ -1296,6 +1433,7 @@ fn h2_client(front: SocketAddr, sh: Arc<Shared>) {
     let mut dec = loona_hpack::Decoder::new();
     let mut enc = loona_hpack::Encoder::new();
     let mut opened = false;
+    let mut next_to_open = 0usize;
     let mut got_settings = false;
     // sid -> (idx, received, flow-controlled bytes not yet returned)
     let mut rx: HashMap<u32, (usize, usize)> = HashMap::new();
@@ -1394,20 +1532,41 @@ fn h2_client(front: SocketAddr, sh: Arc<Shared>) {
                 _ => {}
             }
         }
-        if got_settings && !opened {
+        // staggered mode (read-ack handshakes on shared state, no timing): stream i is opened once i backend
+        // connections have read sozu's preface, or — one backend connection being up — once the request of
+        // stream i-1 has reached the backend; all streams at once otherwise
+        let allowed = if !scn.stagger || sh.expired() {
+            scn.n
+        } else {
+            let prefaces = sh.backend_prefaces.load(std::sync::atomic::Ordering::SeqCst);
+            let mut k = next_to_open.max(1);
+            while k < scn.n
+                && (prefaces >= k
+                    || (prefaces >= 1 && sh.with(k - 1, |x| x.req_end != End::Open || !x.req_recv.is_empty()).unwrap_or(false)))
+            {
+                k += 1;
+            }
+            k
+        };
+        if got_settings && next_to_open < allowed {
+            let range = next_to_open..allowed;
+            next_to_open = allowed;
             opened = true;
-            for i in 0..scn.n {
+            for i in range {
                 let sid = 1 + 2 * i as u32;
                 let body = pattern(scn.seed, i, 0, scn.req_len(i));
                 let mut block = vec![];
-                let post = scn.req_fr != "none";
-                for (k, v) in [(&b":method"[..], if post { &b"POST"[..] } else { &b"GET"[..] }), (b":scheme", b"https"), (b":path", scn.path(i).as_bytes()), (b":authority", b"localhost")] {
+                let post = scn.req_fr != "none" && scn.req_fr != "head";
+                for (k, v) in [(&b":method"[..], scn.method().as_bytes()), (b":scheme", b"https"), (b":path", scn.path(i).as_bytes()), (b":authority", b"localhost")] {
                     let _ = enc.encode_header_into((k, v), &mut block);
                 }
                 c.queue(&frame(T_HEADERS, if post { 0x4 } else { 0x5 }, sid, &block));
                 rx.insert(sid, (i, 0));
                 if post {
                     let abort_at = if scn.abort == 2 && !body.is_empty() { Some(body.len() / 2) } else { None };
+                    if scn.req_trailers() {
+                        tx.trailers.push(sid);
+                    }
                     tx.open(sid, body, i, abort_at);
                 } else {
                     sh.with(i, |x| x.req_sender_blocked_or_done = true);
@@ -1434,10 +1593,13 @@ fn h2_client(front: SocketAddr, sh: Arc<Shared>) {
                 }
             }
         }
-        if opened && open_streams == 0 && tx.idle() && !c.pending() {
+        if opened && next_to_open == scn.n && open_streams == 0 && tx.idle() && !c.pending() {
             return;
         }
         if c.eof || c.err {
+            if trace() {
+                eprintln!("h2 client: transport ended eof={} err={} pending={} open_streams={open_streams}", c.eof, c.err, c.pending());
+            }
             for (_, e) in rx.drain() {
                 sh.with(e.0, |x| if x.resp_end == End::Open { x.resp_end = End::Unclean });
             }
@@ -1513,7 +1675,8 @@ fn start_worker(bufsz: u64, back_h1: SocketAddr, back_h2: SocketAddr) -> Worker 
     let job = std::thread::spawn(move || {
         match std::env::var("C01BB_LOG") {
             Ok(level) if !level.is_empty() => {
-                let _ = sozu_command_lib::logging::setup_logging("stdout", false, None, None, None, &level, "WRK");
+                let target = std::env::var("C01BB_LOG_TARGET").unwrap_or_else(|_| "stdout".into());
+                let _ = sozu_command_lib::logging::setup_logging(&target, false, None, None, None, &level, "WRK");
             }
             _ => {
                 let _ = sozu_command_lib::logging::setup_logging("file:///dev/null", false, None, None, None, "error", "WRK");
@@ -1617,6 +1780,7 @@ fn parse_scn(a: &[Tok], nonce: u64) -> Option<Scn> {
         front_h2: s(0) == "h2", back_h2: s(1) == "h2", bufsz: n(2) as u64, n: n(3).max(1), req_fr: s(4), req_size: n(5), resp_fr: s(6),
         resp_size: n(7), step: n(8), chunk: n(9).max(1), pad: n(10), cfrag: n(11), cpause: n(12), bfrag: n(13), bpause: n(14),
         sockbuf: n(15), win: n(16) as u32, abort: n(17) as u8, seed: n(18) as u64, nonce,
+        stagger: a.len() > 19 && n(19) == 1, pipeline: a.len() > 19 && n(19) == 2 && s(0) == "h1", bset_delay_ms: if a.len() > 20 { n(20) as u64 } else { 0 },
     })
 }
 
@@ -1633,7 +1797,7 @@ fn run_scn(env: &mut Env, scn: Scn, out: &mut Out) {
     let xs = (0..scn.n)
         .map(|_| Xchg { req_recv: vec![], req_end: End::Open, resp_recv: vec![], resp_end: End::Open, status: 0, req_sender_blocked_or_done: false, resp_sender_blocked_or_done: false, notes: vec![] })
         .collect();
-    let sh = Arc::new(Shared { scn: scn.clone(), x: Mutex::new(xs), deadline, progress: Mutex::new((0, Instant::now())), client_ports: Mutex::new(vec![]), backend_peer_ports: Mutex::new(vec![]), unread: Mutex::new((0, 0)) });
+    let sh = Arc::new(Shared { scn: scn.clone(), x: Mutex::new(xs), deadline, progress: Mutex::new((0, Instant::now())), client_ports: Mutex::new(vec![]), backend_peer_ports: Mutex::new(vec![]), unread: Mutex::new((0, 0)), backend_prefaces: std::sync::atomic::AtomicUsize::new(0) });
     *env.cur.lock().unwrap() = Some(sh.clone());
     let front = if scn.front_h2 { w.https } else { w.http };
     let shc = sh.clone();
@@ -1708,7 +1872,7 @@ fn run_scn(env: &mut Env, scn: Scn, out: &mut Out) {
                 (false, _) => true,
             }
         };
-        let status_ok = x.status == 200;
+        let status_ok = x.status == scn.expected_status();
         if !status_ok && scn.abort == 1 {
             // the backend cut its response: an error answer is one of the unclean outcomes
             if x.resp_end == End::Clean && x.status / 100 == 2 {
@@ -1729,7 +1893,7 @@ fn run_scn(env: &mut Env, scn: Scn, out: &mut Out) {
             continue;
         }
         if !status_ok && !(scn.abort == 2) {
-            out.viol("unexpected-status", &format!("exchange {i} was answered {} instead of 200 ({shape}){notes}", x.status));
+            out.viol("unexpected-status", &format!("exchange {i} was answered {} instead of {} ({shape}){notes}", x.status, scn.expected_status()));
             ok = false;
             continue;
         }
